@@ -101,3 +101,21 @@ PROPS["C02"] = dict(
             "thorough": "depth 2 everywhere, depth 3 on the small synthetic roots, frontier cap 60000"},
     assumptions=COMMON_ASSUMPTIONS + ["states beyond the frontier cap are checked but not expanded"],
 )
+
+
+PROPS["C08"] = dict(
+    level_text="Exhaustive within bounds: every restrict call of the enumerated (set, flag word) product is executed on the real "
+               "library from every root x configuration and again from every distinct state the first application reaches; the "
+               "post-state is compared object by object (keyed by gp_index) with a reference model written from the statement, "
+               "failing calls with the unchanged canonical dump.",
+    technique="explicit-state exploration (depth 1-2 histories of restrict) of the real library against a gp_index-keyed reference model",
+    design_ref="DESIGN.md 5 (C08)",
+    stages=[simple("restrict", "c08_restrict", parts=100, deadline={"quick": 100, "thorough": 3000})],
+    explanation="Sets: all subsets of the PU (NUMA) os_index set when it has <= 4 (6 thorough) elements, otherwise object sets, complements "
+                "and unions of two; plus infinite supersets, supersets with an unknown index, disjoint and empty sets. Flags: all 32 words over the "
+                "five restrict flags and an unknown bit. Roots carry Misc objects (keep-all configurations) and I/O (fixtures).",
+    bounds={"quick": "subsets when <= 4 elements; second application from the first 30 distinct states per (root,cfg)",
+            "thorough": "subsets when <= 6 elements; second application from up to 4000 distinct states per (root,cfg)"},
+    assumptions=COMMON_ASSUMPTIONS + ["objects of KEEP_STRUCTURE types (and Groups) may disappear by structural merging: the model accepts their disappearance without re-deriving the merge rule",
+                                      "mixed Misc-below-I/O subtrees under a single ADAPT flag are only checked for the clauses that the statement determines"],
+)
